@@ -21,7 +21,10 @@ NOTES = {
     "C09-B": "caught by the stand-in; later also by Table.write's contract (header cache invalidated iff the write is in the header area), re-verified by C09",
     "C17-A": "rebased after the C17 fix: commits; the refuted escape obligations are now replayed through the container fault-injection search",
     "C16-A": "rebased; first caught only by the deductive side; stand-in strengthened with partial queries",
-    "C13-A": "rebased after fix 1caf0ad; needed the strict tie rule for decimal formats", "C13-B": "rebased after fix 1caf0ad",
+    "C13-A": "rebased after fix 1caf0ad; needed the strict tie rule for decimal formats; later also refuted by _format_decimal's dataflow contract",
+    "C13-B": "rebased after fix 1caf0ad",
+    "C13-C": "round 2; caught by the stand-in; later also refuted by _format_decimal's dataflow contract (the 15-digit rounding must come first)",
+    "C08-B": "caught by the stand-in; later also by the package-wide obligation that memoised methods key on every parameter",
     "C03-A": "rebased twice (fix: commits touched the same lines)", "C04-A": "rebased after fix ba61402",
     "C17-C": "round 2; first missed (a module-level import shadowing the builtin NotImplementedError): the executor now resolves exception names "
              "through the module's imports and the stand-in flips every bit of the zip's structural records",
